@@ -2,7 +2,7 @@ PROPS = {
     "C09": {
         "k": [("k_addr", ["c09_"]), ("k_net", ["c09_"]), ("k_net2", ["c09_"])],
         "timeout": {"quick": 420, "thorough": 2400},
-        "text": "Bounded model checking of decode-only entry points on arbitrary bytes with Kani's panic, bounds and arithmetic-overflow checks on: Address::from_bytes / ByronAddress::from_bytes (buffer sizes in the evidence file) and, for both network stacks, the message types that reach a verdict (keepalive Message, Point, Tip) on buffers of symbolic length 0..=3 (thorough 0..=5): the result is a value or an error, never a panic.",
+        "text": "Bounded model checking of decode-only entry points on arbitrary bytes with Kani's panic, bounds and arithmetic-overflow checks on: Address::from_bytes / ByronAddress::from_bytes (buffer sizes in the evidence file; the long type-4/5/8 buffers gave no verdict within 480 s and are c09_x_*) and, for both network stacks, the message types that reach a verdict (keepalive Message, Point, Tip) on buffers of symbolic length 0..=3 (thorough 0..=5): the result is a value or an error, never a panic.",
         "note": "Small part of the property. Outside: MultiEraBlock/MultiEraTx/MultiEraHeader::decode (minicbor's tokenizer on symbolic bytes: no verdict in 150-400 s), the list-carrying mini-protocol message types (harnesses exist as c09_x_* but time out), handshake (HashMap), localtxsubmission reject reasons, longer buffers, structure-aware mutations of fixtures (sampling, not a solver question).",
     },
 }
